@@ -68,3 +68,61 @@ package directive
 //@   trusted
 //@   requires d != nil
 //@   modifies d.unnamedParameters, mapof(d.namedParameters)
+
+// ---------------------------------------------------------------- ordered map Directives (string -> *Directive)
+//@ guardedby Directives.data mx
+//@ guardedby Directives.order mx
+//@ pred RepInvDirectives(m *Directives) = m != nil
+//@     && (forall i int, j int :: 0 <= i && i < j && j < len(m.order) ==> m.order[i] != m.order[j])
+//@     && (forall i :: 0 <= i && i < len(m.order) ==> has(m.data, m.order[i]))
+//@     && len(m.order) == (m.data == nil ? 0 : len(m.data))
+
+//@ func (*Directives).has
+//@   tag C09 C16 C01
+//@   pure
+//@   requires m != nil && m.mx != 0
+//@   ensures ret == has(m.data, k)
+
+//@ func (*Directives).Has
+//@   tag C09 C11 C16 C01
+//@   requires m != nil && m.mx == 0
+//@   modifies m.mx
+//@   ensures m.mx == 0 && ret == has(m.data, k)
+
+//@ func (*Directives).Get
+//@   tag C09 C16 C01
+//@   requires m != nil && m.mx == 0
+//@   modifies m.mx
+//@   ensures m.mx == 0 && ret1 == has(m.data, k) && (ret1 ==> ret0 == m.data[k])
+
+//@ func (*Directives).GetValue
+//@   tag C09 C16 C01
+//@   requires m != nil && m.mx == 0
+//@   modifies m.mx
+//@   ensures m.mx == 0 && (has(m.data, k) ==> ret == m.data[k])
+
+//@ func (*Directives).Len
+//@   tag C09 C16 C01
+//@   requires m != nil && m.mx == 0
+//@   modifies m.mx
+//@   ensures m.mx == 0 && ret == (m.data == nil ? 0 : len(m.data))
+
+//@ func (*Directives).Set
+//@   tag C09 C11 C16 C01
+//@   requires RepInvDirectives(m) && m.mx == 0
+//@   modifies m.mx, m.data, m.order, mapof(m.data)
+//@   ensures m.mx == 0 && RepInvDirectives(m)
+//@   ensures old(has(m.data, k)) ==> m.order == old(m.order)
+//@   ensures !old(has(m.data, k)) ==> seqapp(m.order, old(m.order), k)
+//@   ensures has(m.data, k) && m.data[k] == v
+//@   ensures forall j string :: j != k ==> has(m.data, j) == old(has(m.data, j)) && (has(m.data, j) ==> m.data[j] == old(m.data[j]))
+
+//@ func (*Directives).SetToTop
+//@   tag C09 C16 C01
+//@   requires RepInvDirectives(m) && m.mx == 0
+//@   modifies m.mx, m.data, m.order, mapof(m.data)
+//@   ensures m.mx == 0 && RepInvDirectives(m)
+//@   ensures old(has(m.data, k)) ==> m.order == old(m.order)
+//@   ensures !old(has(m.data, k)) ==> len(m.order) == old(len(m.order)) + 1 && m.order[0] == k && (forall i :: 0 <= i && i < old(len(m.order)) ==> m.order[i+1] == old(m.order[i]))
+//@   ensures has(m.data, k) && m.data[k] == v
+//@   ensures forall j string :: j != k ==> has(m.data, j) == old(has(m.data, j)) && (has(m.data, j) ==> m.data[j] == old(m.data[j]))
